@@ -422,7 +422,11 @@ class Server:
         raw = urllib.parse.unquote_to_bytes(path)
         p = raw.decode("latin-1")
         mount = self.prefix.rstrip("/")
-        if mount and (p == mount or p.startswith(mount + "/")):
+        alias = False
+        if p == "/@alias" or p.startswith("/@alias/"):
+            # the gateway publishes the same application object under a second mount point
+            script_name, path_info, alias = "/@alias", p[len("/@alias"):], True
+        elif mount and (p == mount or p.startswith(mount + "/")):
             script_name, path_info = mount, p[len(mount):]
         else:
             script_name, path_info = "", p
@@ -462,7 +466,9 @@ class Server:
             out["headers"] = list(hdrs)
             return lambda data: None
 
-        if mount and not script_name:
+        if alias:
+            it = self._wsgi(environ, start_response)
+        elif mount and not script_name:
             # outside the mount point: only the well-known redirector sees it
             if p in ("/.well-known/caldav", "/.well-known/carddav"):
                 it = self._wsgi(environ, start_response)
